@@ -70,7 +70,7 @@ func run(c *vf.Ctx) {
 
 	fullDepth, coreDepth, smallDepth := 2, 3, 0
 	if c.Thorough {
-		fullDepth, coreDepth, smallDepth = 3, 0, 4
+		fullDepth, coreDepth, smallDepth = 3, 4, 0
 	}
 	if d := os.Getenv("C33_DEPTH"); d != "" { // development aid
 		fmt.Sscan(d, &fullDepth)
